@@ -5,7 +5,7 @@ C04 on code obtained from the source text.
 (+ `poly.hpp`, `meta.hpp`), for T = uint16_t, uint32_t, uint64_t:
   `gmp_ctor_uW`   `poly<T,Degree,NbModuli>::GMP::GMP()`                    (every GMP call by name through `Model/GmpSem.lean`)
   `poly2mpz_uW`   `GMP::poly2mpz(std::array<mpz_t,Degree>&, poly const&)`  (the whole loop nest, index arithmetic of `op(cm,i)` included)
-  `mpz2poly_uW`   `GMP::mpz2poly(poly&, std::array<mpz_t,Degree> const&)`  (translated; equality with the model NOT proved here, see the end)
+  `mpz2poly_uW`   `GMP::mpz2poly(poly&, std::array<mpz_t,Degree> const&)`  (translated; equality with the model: Properties/C04Ast2.lean)
   `static_log2`   `static_log2<N>::value` from the instantiated chains of `meta.hpp`
 with `nmoduli`, `degree`, `kModulusRepresentationBitsize` as parameters.  This file states
   (1) `ctor_uW_eq`: for ALL `inv`, `w`, `ps` with `CtorFits w ps` (`1 ≤ ps.length < 2^64` and the shift
@@ -16,9 +16,9 @@ with `nmoduli`, `degree`, `kModulusRepresentationBitsize` as parameters.  This f
       loop nest on `toGen gc` is the model's `Crt.poly2mpz gc`, provided `nmoduli * degree < 2^64` (the index `cm*degree+i`
       does not wrap); `poly2mpz_uW_coeff`: its `i`-th entry is `Crt.poly2mpzCoeff` of the residues of coefficient `i`.
   (3) C04's statements (range, congruences, uniqueness, `x = Σ…  mod Q`) transported to the generated code.
-NOT covered by this tie (hand-modelled in `Model/Crt.lean`, tied by the differential stream): `poly::set_mpz(It,It)` and the
-overloads forwarding to it, the by-value `poly2mpz(poly const&)` wrapper, the equality `mpz2poly_uW = Crt.mpz2poly`
-(only `example`s on concrete inputs below).
+Continued in `Properties/C04Ast2.lean`: `mpz2poly_uW = Crt.mpz2poly` for all inputs, the round trips of the generated pair, and the
+generated `poly::set_mpz<It>(It,It)` + forwarding overloads (`Generated/SetMpzAst.lean`) = `Crt.setMpz`.
+NOT covered by this tie (tied by the differential stream): the by-value `poly2mpz(poly const&)` wrapper, `poly::operator=(mpz…)`.
 -/
 import NflVerif.Proofs.CrtAstEq
 import NflVerif.Properties.C04
@@ -203,7 +203,7 @@ example : (gmp_ctor_u64 invMod 64 3 [7, 11, 13]).lifting_integers = [715, 364, 9
 /-- all residues `p−1`: the generated loop nest returns `Q−1` in every coefficient, whatever `rop` held -/
 example : poly2mpz_u16 2 2 (gmp_ctor_u16 invMod 16 2 [15361, 13313]) [-5, 77] [15360, 15360, 13312, 13312] = [204500992, 204500992] := by
   decide
-/-- `mpz2poly` as generated agrees with the model on a concrete input (negative and large integers; equality not proved in general) -/
+/-- `mpz2poly` as generated agrees with the model on a concrete input (negative and large integers; in general: C04Ast2.mpz2poly_uW_eq) -/
 example : mpz2poly_u64 3 2 [7, 11, 13] [0, 0, 0, 0, 0, 0] [-1, 1000] = Crt.mpz2poly [7, 11, 13] [-1, 1000] := by decide
 example : mpz2poly_u16 2 2 [15361, 13313] [9, 9, 9, 9] [-1, 204500993] = Crt.mpz2poly [15361, 13313] [-1, 204500993] := by decide
 
